@@ -79,16 +79,17 @@ theorem exactly_once (hier : Hier) (early ordinary : List Listener) (rIgn : Bool
 
 /-- Ignore is local to one packet: in ANY history, the result recorded for the packet at position
 `k` is the result of reacting to that packet alone — it depends neither on the packets before or
-after it nor on whether any of them was ignored.  In particular two histories that have the same
-packet somewhere produce the same log for it. -/
-theorem ignore_is_local (hier : Hier) (early ordinary : List Listener) (rI : Nat → Bool)
-    (pre post pre' post' : List Nat) (c : Nat) :
+after it nor on whether any of them was ignored (by a listener or by the built-in reaction: `rI`
+and `rI'` may differ arbitrarily on the other packets).  In particular two histories that have the
+same packet somewhere produce the same log for it.  One result per packet, in order. -/
+theorem ignore_is_local (hier : Hier) (early ordinary : List Listener) (rI rI' : Nat → Bool)
+    (pre post pre' post' : List Nat) (c : Nat) (hc : rI c = rI' c) :
     (runHistory hier early ordinary rI (pre ++ c :: post))[pre.length]? =
         some (reactIncoming hier early ordinary (rI c) c) ∧
     (runHistory hier early ordinary rI (pre ++ c :: post))[pre.length]? =
-        (runHistory hier early ordinary rI (pre' ++ c :: post'))[pre'.length]? ∧
+        (runHistory hier early ordinary rI' (pre' ++ c :: post'))[pre'.length]? ∧
     (runHistory hier early ordinary rI (pre ++ c :: post)).length = (pre ++ c :: post).length := by
-  simp [runHistory_eq_map]
+  simp [runHistory_eq_map, hc]
 
 /-- An early listener that ignores suppresses everything after it: if some matching early listener
 raises `IgnorePacket`, the built-in reaction does not run, no ordinary listener runs, no early
